@@ -42,7 +42,7 @@ def zones_wf(mgr):
                                          and inside_global(mgr, mapping(mgr._zones)[n])), types={'n': 'str'}))
 
 
-contract(MGR + '.global_zone', props=['C05'], requires=['"GLOBAL" in self._zones'],
+contract(MGR + '.global_zone', props=['C05'], raises={'KeyError': 'not ("GLOBAL" in self._zones)'},
          ensures=['result is mapping(self._zones)["GLOBAL"]'], modifies=[])
 
 contract(MGR + '.create_zone', props=['C05'],
